@@ -7,11 +7,13 @@ CONSTANTS
   Shapes <- S_wmL
   Ctl <- C_close_close
   Closer = TRUE
+  Rd <- R_none
   ControlTakesLock = TRUE
   FlushAtomic = TRUE
   LatchChecked = TRUE
   CloseLatches = TRUE
   TimeoutReleases = FALSE
+  HandlerControlPath = TRUE
   Fifo = TRUE
   OnlyBad = FALSE
   Family = "twoclose"
